@@ -66,7 +66,47 @@ func (p params) build() protocol.ProtocolVersionMap {
 			out[v] = d
 		}
 	}
+	// what a caller may do with a map it was handed: empty it and put its own
+	// entries in.  Later calls of the generator must not be affected.
+	for k := range full {
+		delete(full, k)
+	}
+	full[999] = protocol.VersionDataNtC9to14(p.Magic ^ 0x55aa55aa)
 	return out
+}
+
+// tableMatchesConfig checks that the generated table is the one the
+// configuration asks for: exactly the requested supported versions, each
+// carrying the configured magic.  (A table generator that remembers an
+// earlier call - other magic, or a map a caller has since modified - fails
+// here.)
+func tableMatchesConfig(p params, m protocol.ProtocolVersionMap) string {
+	if p.WrongType != 0 {
+		return ""
+	}
+	supported := map[uint16]bool{}
+	for _, v := range vtab.Tables[p.Table].List() {
+		supported[v] = true
+	}
+	want := 0
+	seen := map[uint16]bool{}
+	for _, v := range p.Versions {
+		if supported[v] && !seen[v] {
+			seen[v] = true
+			want++
+			d, ok := m[v]
+			if !ok || d == nil {
+				return fmt.Sprintf("version %d is missing from the table generated for magic %d", v, p.Magic)
+			}
+			if d.NetworkMagic() != p.Magic {
+				return fmt.Sprintf("the table generated for magic %d carries magic %d at version %d", p.Magic, d.NetworkMagic(), v)
+			}
+		}
+	}
+	if want != len(m) {
+		return fmt.Sprintf("the table generated for versions %v has %d entries", p.Versions, len(m))
+	}
+	return ""
 }
 
 func coqTable(m protocol.ProtocolVersionMap) string {
@@ -130,7 +170,7 @@ func viewOf(v protocol.VersionData) view {
 var lostReplies int
 
 // expectation from the property text, computed from the configured tables only
-func expect(sm, cm protocol.ProtocolVersionMap) (class string, v uint16) {
+func expect(sp, cp params, sm, cm protocol.ProtocolVersionMap) (class string, v uint16) {
 	for ver, d := range cm {
 		if d.Query() && protocol.GetProtocolVersion(ver).NewVersionDataFromCborFunc != nil {
 			return "query", 0
@@ -148,7 +188,8 @@ func expect(sm, cm protocol.ProtocolVersionMap) (class string, v uint16) {
 	if !found {
 		return "mismatch", 0
 	}
-	if cm[v].NetworkMagic() != sm[v].NetworkMagic() {
+	// the magics are those of the two configurations
+	if cp.Magic != sp.Magic {
 		return "refused", v
 	}
 	return "finished", v
@@ -158,7 +199,15 @@ func runCase(c *vh.Ctx, cf *vh.CaseFile, sp, cp params, conn bool, class string)
 	sm, cm := sp.build(), cp.build()
 	rc := rcase{Server: sp, Client: cp, Conn: conn}
 	c.Begin(rc)
-	expClass, expV := expect(sm, cm)
+	for _, pm := range []struct {
+		p params
+		m protocol.ProtocolVersionMap
+	}{{sp, sm}, {cp, cm}} {
+		if msg := tableMatchesConfig(pm.p, pm.m); msg != "" {
+			c.Res.Violate("monitor", "generated-table-differs-from-configuration", msg+" (earlier calls in this process used other magics and modified the maps they were handed)", rc)
+		}
+	}
+	expClass, expV := expect(sp, cp, sm, cm)
 	if lostReplies >= 8 && expClass != "finished" {
 		// the responder's refusals / query replies are not reaching the initiator on this tree
 		// (already reported); each such case costs a timeout, so stop running them
@@ -295,7 +344,7 @@ func randSubset(r *vh.Rng, vs []uint16) []uint16 {
 }
 
 func run(c *vh.Ctx) error {
-	c.Res.Rule = "pairs (responder table, initiator table) of sub-tables of the NtN / NtC / DMQ-NtC / DMQ-NtN tables: all singletons x singletons, subsets of size <= 2 on both sides (exhaustive for NtN/DMQ and 2500 sampled for NtC in thorough, ~160 sampled per table in quick), random larger subsets incl. empty and full; x magic equal / different, diffusion and peer-sharing flags random, query flag on the initiator; initiator entries of the wrong Go type (decode-error path); cross-table pairs; whole-Connection pairs with the generated full tables. Distinct by both parameter records; non-trivial = both tables non-empty"
+	c.Res.Rule = "pairs (responder table, initiator table) of sub-tables of the NtN / NtC / DMQ-NtC / DMQ-NtN tables: all singletons x singletons, subsets of size <= 2 on both sides (exhaustive for NtN/DMQ and 2500 sampled for NtC in thorough, ~160 sampled per table in quick), random larger subsets incl. empty and full; x magic equal / different (incl. pairs agreeing in their low 8/16/24 bits, configured in sequence in one process; every generated map is emptied and refilled by the harness after use), diffusion and peer-sharing flags random, query flag on the initiator; initiator entries of the wrong Go type (decode-error path); cross-table pairs; whole-Connection pairs with the generated full tables. Distinct by both parameter records; non-trivial = both tables non-empty"
 	c.Res.Modelled = []string{"mux framing, message CBOR framing and the protocol state machine are exercised for real but not modelled (C09-C12); the model starts at the decoded ProposeVersions map", "nil entries in a configured version table are not modelled (no generator produces them)", "the text of DecodeError / Refused refusals is not compared"}
 	cf := c.NewCaseFile("c18", header)
 	cf.SetShardSize(150)
@@ -324,6 +373,14 @@ func run(c *vh.Ctx) error {
 			for cp.Magic == m {
 				cp.Magic = vh.PickOne(r, magics)
 			}
+			if r.Intn(3) == 0 {
+				// magics that agree in their low 8 / 16 / 24 bits, same flags
+				k := 8 * (1 + r.Intn(3))
+				cp.Magic = m ^ (1 << uint(k+r.Intn(32-k)))
+				if r.Bool() {
+					cp.Dm, cp.Ps = sp.Dm, sp.Ps
+				}
+			}
 		}
 		return sp, cp
 	}
@@ -341,6 +398,19 @@ func run(c *vh.Ctx) error {
 		sp, cp = mk(1, []uint16{14, 7, 11}, true)
 		cp.Versions = []uint16{13, 15}
 		runCase(c, cf, sp, cp, false, "corpus")
+		// two networks whose magics agree in the low 24 bits (Cardano mainnet / Mithril DMQ mainnet),
+		// configured one after the other in this process, same flags: must be refused
+		for _, t := range []int{1, 0} {
+			vs := vtab.Tables[t].List()
+			sp = params{Table: t, Magic: 764824073, Dm: true, Versions: vs}
+			cp = params{Table: t, Magic: 2912307721, Dm: true, Versions: vs}
+			runCase(c, cf, sp, cp, false, "corpus-lowbits")
+			runCase(c, cf, sp, cp, true, "corpus-lowbits")
+			sp.Magic, cp.Magic = 1, 1+1<<16
+			runCase(c, cf, sp, cp, false, "corpus-lowbits")
+			sp.Magic, cp.Magic = 1+1<<8, 1
+			runCase(c, cf, sp, cp, true, "corpus-lowbits")
+		}
 		sp, cp = mk(1, []uint16{13, 14}, true)
 		cp.Versions, cp.Q = []uint16{10, 14}, true
 		runCase(c, cf, sp, cp, false, "corpus")
